@@ -128,6 +128,10 @@ func RunC01(c *Ctx, r *Report) {
 	// the padding the sender adds is what the receiver strips: 1..16 octets ending in the pad-length octet, for
 	// block-aligned plaintext too (the rule set of C10/C06)
 	c.pkcs7Rules(r, prefix)
+	// ... and the cipher round trip itself: Encrypt emits IV | CBC(padded), Decrypt takes the first block as IV,
+	// decrypts the rest into a fresh buffer and strips pad-length + 1 octets whatever the pad length is
+	c.aesCbcEncryptRules(r, prefix)
+	c.aesCbcDecryptRules(r, prefix)
 	c.wrapOfNilRule(r, prefix+"error.wrap-of-nil", c.Reachable(a.EncodeEncrypt, a.DecodeDecrypt), 20)
 	ruleH := prefix + "mac-stateless"
 	r.Rule(ruleH, "the checksum of a message is a function of the message alone: every hash Write in calculateIntegrity is preceded by Reset on the same object on every path (the integrity objects are long-lived; Sum does not reset them)", 1)
